@@ -13,6 +13,7 @@ from . import bridge, common, replay_deser, tlc
 CLAUSES = {
     "C04": {"image", "untyped", "nonjson", "escape"},
     "C05": {"roundtrip", "roundtrip-json", "roundtrip-escape"},
+    "C07": {"schema-rejects", "schema-model", "schema-error"},
     "C08": {"opt-method", "opt-check_type", "opt-no_copy", "opt-pass_through", "opt-input-modified", "opt-shares"},
 }
 
@@ -21,6 +22,7 @@ SPECIFICATION Spec
 INVARIANT JsonOnly
 INVARIANT AnyEqTyped
 INVARIANT RoundTrip
+INVARIANT SerValidates
 """
 
 
